@@ -876,44 +876,106 @@ fn history_names(hops: &[HOp]) -> String {
     format!("[{}]", hops.iter().map(hop_name).collect::<Vec<_>>().join(", "))
 }
 
-fn replay_history(sink: &mut Sink, env: &Env, c: &Value) {
-    // implementation only: the texts of the calls are replayed in order
-    let user = c["user"].as_bool().unwrap_or(false);
-    let mut ops = vec![];
-    for o in c["ops"].as_array().unwrap() {
-        ops.push(match o["op"].as_str().unwrap() {
-            "read_conn" => Op::Conn(o["text"].as_str().unwrap().as_bytes().to_vec()),
-            "read_lexicon" => Op::Lex(o["text"].as_str().unwrap().as_bytes().to_vec()),
-            "resolve" => Op::Resolve,
-            _ => Op::Compile(Attempt::Good),
-        });
-    }
-    let probes: Vec<String> = ops.iter().filter_map(|o| if let Op::Lex(t) = o { Some(String::from_utf8_lossy(t).chars().filter(|c| !c.is_ascii()).take(40).collect()) } else { None }).collect();
-    let obs = observe_history(env, user, &ops, &probes);
-    println!("history on one {} builder:", if user { "user-dictionary" } else { "system-dictionary" });
-    let id = sink.case_rust_only(json!({"kind": "c06-history", "shape": "replay"}), true);
-    let mut conn_ok = false;
-    for (i, (o, ob)) in ops.iter().zip(obs.iter()).enumerate() {
-        let (name, text) = match o {
-            Op::Conn(t) => ("read_conn", String::from_utf8_lossy(t).to_string()),
-            Op::Lex(t) => ("read_lexicon", String::from_utf8_lossy(t).to_string()),
-            Op::Resolve => ("resolve", String::new()),
-            Op::Compile(_) => ("compile", String::new()),
-        };
-        println!("  call {} {} {:?} -> {} {}", i + 1, name, text.chars().take(200).collect::<String>(), ob.status, ob.msg);
-        if ob.status == "SPanic" {
-            sink.fail(id, &format!("call {} ({}) panicked: {}", i + 1, name, ob.msg), "");
+/// inverse of the renderers of this file (matrix_text / lexicon_text), so that a replay can hand the abstract calls to the model
+fn parse_back_matrix(t: &str) -> Vec<Vec<Tok>> {
+    t.split('\n')
+        .map(|l| l.split_whitespace().map(|w| match w.parse::<i64>() { Ok(z) if !w.starts_with('+') => Tok::Num(z), _ => Tok::Bad(w.to_string()) }).collect())
+        .collect::<Vec<Vec<Tok>>>()
+        .into_iter()
+        .rev()
+        .skip_while(|l: &Vec<Tok>| l.is_empty())
+        .collect::<Vec<_>>()
+        .into_iter()
+        .rev()
+        .collect()
+}
+fn parse_back_lexicon(t: &str) -> Vec<Rec> {
+    let num = |s: &str| match s.parse::<i64>() { Ok(z) if !s.starts_with('+') => Num::Lit(z), _ => Num::Bad(s.to_string()) };
+    let wid = |s: &str| -> Wid {
+        let (u, d) = if let Some(r) = s.strip_prefix('U') { (true, r) } else { (false, s) };
+        match d.parse::<i64>() { Ok(z) if !d.is_empty() && d.chars().all(|c| c.is_ascii_digit()) => Wid::Lit(u, z), _ => Wid::Bad(s.to_string()) }
+    };
+    let wids = |s: &str| -> Vec<Wid> { if s == "*" || s.is_empty() { vec![] } else { s.split('/').map(wid).collect() } };
+    t.lines().filter(|l| !l.is_empty()).map(|l| {
+        let c: Vec<&str> = l.split(',').collect();
+        let g = |i: usize| -> &str { c.get(i).copied().unwrap_or("") };
+        let pos = POS.iter().position(|p| p.split(',').collect::<Vec<_>>() == c.get(5..11).map(|x| x.to_vec()).unwrap_or_default()).unwrap_or(0);
+        Rec {
+            ncols: c.len(),
+            strings: if g(11).len() > 32767 { StrKind::TooLong } else if g(12).contains("\\u{110000}") { StrKind::BadEscape } else { StrKind::Ok },
+            surface: g(0).to_string(),
+            left: num(g(1)),
+            right: num(g(2)),
+            cost: num(g(3)),
+            pos,
+            dic_form: if g(13) == "*" || c.len() <= 13 { None } else { Some(wid(g(13))) },
+            mode: match g(14) { "A" => Some(0), "B" => Some(1), "C" => Some(2), _ => None },
+            split_a: wids(g(15)),
+            split_b: wids(g(16)),
+            wstruct: wids(g(17)),
+            syn_ok: c.len() < 19 || g(18) == "1/22",
+            has_syn: c.len() >= 19,
+            splits_concat: true,
         }
-        if name == "compile" && ob.status == "SOk" {
-            println!("      dictionary: dims {:?}; audit / load / analysis fine: {} {}", ob.dims, ob.fine, ob.problem);
-            if !ob.fine && (user || conn_ok) {
+    }).collect()
+}
+
+fn replay_history(sink: &mut Sink, env: &Env, c: &Value) {
+    let user = c["user"].as_bool().unwrap_or(false);
+    if c["shape"] == "rust_only" {
+        // implementation only: the texts of the calls are replayed in order
+        let mut ops = vec![];
+        for o in c["ops"].as_array().unwrap() {
+            ops.push(match o["op"].as_str().unwrap() {
+                "read_conn" => Op::Conn(o["text"].as_str().unwrap().as_bytes().to_vec()),
+                "read_lexicon" => Op::Lex(o["text"].as_str().unwrap().as_bytes().to_vec()),
+                "resolve" => Op::Resolve,
+                _ => Op::Compile(Attempt::Good),
+            });
+        }
+        let obs = observe_history(env, user, &ops, &["ああいいううええ".to_string()]);
+        println!("history on one {} builder (implementation only; failing sinks of the original run are replayed as good sinks):", if user { "user-dictionary" } else { "system-dictionary" });
+        let id = sink.case_rust_only(json!({"kind": "c06-history", "shape": "replay"}), true);
+        let mut conn_ok = false;
+        for (i, (o, ob)) in ops.iter().zip(obs.iter()).enumerate() {
+            let (name, text) = match o {
+                Op::Conn(t) => ("read_conn", String::from_utf8_lossy(t).to_string()),
+                Op::Lex(t) => ("read_lexicon", String::from_utf8_lossy(t).to_string()),
+                Op::Resolve => ("resolve", String::new()),
+                Op::Compile(_) => ("compile", String::new()),
+            };
+            println!("  call {} {} {:?} -> {} {}", i + 1, name, text.chars().take(200).collect::<String>(), ob.status, ob.msg);
+            if ob.status == "SPanic" {
+                sink.fail(id, &format!("call {} ({}) panicked: {}", i + 1, name, ob.msg), "");
+            }
+            if name == "compile" && ob.status == "SOk" && !ob.fine && (user || conn_ok) {
                 sink.fail(id, &format!("call {} (compile) reported success, but {}", i + 1, ob.problem), "");
             }
+            if name == "read_conn" {
+                conn_ok = conn_ok || ob.status == "SOk";
+            }
         }
-        if name == "read_conn" {
-            conn_ok = conn_ok || ob.status == "SOk";
+        return;
+    }
+    let mut hops = vec![];
+    for o in c["ops"].as_array().unwrap() {
+        let text = o["text"].as_str().unwrap_or("").to_string();
+        hops.push(match o["op"].as_str().unwrap() {
+            "read_conn" => HOp::Conn(parse_back_matrix(&text), text),
+            "read_lexicon" => HOp::Lex(parse_back_lexicon(&text), text),
+            "resolve" => HOp::Resolve,
+            _ => HOp::Compile,
+        });
+    }
+    println!("history on one {} builder:", if user { "user-dictionary" } else { "system-dictionary" });
+    for (i, h) in hops.iter().enumerate() {
+        match h {
+            HOp::Conn(_, t) | HOp::Lex(_, t) => println!("  call {} {} {:?}", i + 1, hop_name(h), t.chars().take(300).collect::<String>()),
+            _ => println!("  call {} {}", i + 1, hop_name(h)),
         }
     }
+    println!("implementation:");
+    emit_history(sink, env, user, &hops, "replay", true);
 }
 
 /// a chunk of simple rows (no split references) with ids valid for an nl x nr matrix, surfaces unique per chunk number
